@@ -561,13 +561,13 @@ Proof.
     eapply touched_mono; [exact Hm|]. apply D, H.
 Qed.
 
-Lemma launch_ids e l : map t_id (map (launch_task e) l) = map (fun ir => tid_of e (fst ir)) l.
+Lemma launch_ids e rf l : map t_id (map (launch_task e rf) l) = map (fun ir => tid_of e (fst ir)) l.
 Proof. rewrite map_map. apply map_ext. intro ir. reflexivity. Qed.
 
-Lemma finish_spec e c s s' u :
-  inv s -> finish e c s = (s', u) -> inv s' /\ framed e s s' u.
+Lemma finish0_spec e c s s' u :
+  inv s -> finish0 e c s = (s', u) -> inv s' /\ framed e s s' u.
 Proof.
-  intros I. unfold finish.
+  intros I. unfold finish0.
   destruct (assocN e (s_snaps s)) as [snapdets|] eqn:Ea.
   2:{ intro H; injection H as <- <-. split; [exact I|]. apply good_framed; [exact I|apply good_refl]. }
   apply assocN_In in Ea.
@@ -617,7 +617,7 @@ Proof.
     - cbn [s_envs s0]. apply envs_kept_app.
     - intros k Hk. unfold ks in Hk. rewrite Ecm, app_nil_r in Hk. left. exact Hk. }
   set (x1 := set_bound x0).
-  set (new := map (launch_task e) (task_iroles x1)).
+  set (new := map (launch_task e (c_refuse c)) (task_iroles x1)).
   assert (Hids : map t_id new = bound_tids x1).
   { unfold new. rewrite launch_ids. reflexivity. }
   assert (Hnd : NoDup (map t_id new)) by (rewrite Hids; apply bound_tids_nodup).
@@ -684,24 +684,6 @@ Proof.
   induction a as [|x a IH]; cbn [app]; [auto|]. intro H. inversion H; subst. auto.
 Qed.
 
-Lemma cleanup_all_locked new :
-  (forall t, In t new -> is_locked t = true) -> cleanup new = (new, []).
-Proof.
-  induction new as [|a l IH]; intro H; cbn [cleanup]; [reflexivity|].
-  rewrite IH by (intros t Ht; apply H; right; exact Ht).
-  rewrite (H a (or_introl eq_refl)). reflexivity.
-Qed.
-
-Lemma cleanup_app_locked r new :
-  (forall t, In t new -> is_locked t = true) ->
-  cleanup (r ++ new) = (fst (cleanup r) ++ new, snd (cleanup r)).
-Proof.
-  intro H. induction r as [|a r IH]; cbn [app cleanup].
-  - rewrite cleanup_all_locked by exact H. reflexivity.
-  - rewrite IH. destruct (cleanup r) as [r'' k]. cbn [fst snd].
-    destruct (negb (is_locked a)); reflexivity.
-Qed.
-
 Lemma inv_add_snap s e d :
   inv s -> (forall x, In x (s_envs s) -> e_id x <> e) -> (forall t, In t (s_roster s) -> fst (t_id t) <> e) ->
   inv (mkSt (s_envs s) (s_roster s) ((e, d) :: remove_snap e (s_snaps s))).
@@ -739,6 +721,20 @@ Proof.
     + cbn [set_failed t_id t_owner] in *. eapply inv_bound; eauto.
 Qed.
 
+Lemma refuse_inv ids s : inv s -> inv (with_roster s (refuse_tasks ids (s_roster s))).
+Proof.
+  intro I. unfold with_roster. constructor; cbn [s_roster s_envs s_snaps]; try apply I.
+  - rewrite refuse_ids. apply I.
+  - intros t' e Hin Ho. apply refuse_spec in Hin. destruct Hin as [t [Ht [->| ->]]].
+    + eapply inv_owner; eauto.
+    + cbn [set_kill t_id t_owner] in *. eapply inv_owner; eauto.
+  - intros p t' Hp Hin. apply refuse_spec in Hin. destruct Hin as [t [Ht [->| ->]]];
+      [|cbn [set_kill t_id]]; eapply inv_snap_r; eauto.
+  - intros x t' Hx Hin Ho. apply refuse_spec in Hin. destruct Hin as [t [Ht [->| ->]]].
+    + eapply inv_bound; eauto.
+    + cbn [set_kill t_id t_owner] in *. eapply inv_bound; eauto.
+Qed.
+
 Lemma snap_spec e s s' u :
   inv s -> usedb s e = false -> snap e false s = (s', u) ->
   inv s' /\ o_cmds u = [] /\ o_kills u = snd (cleanup (s_roster s)) /\
@@ -752,6 +748,34 @@ Proof.
     replace r' with (fst (cleanup (s_roster s))) by (rewrite Ec; reflexivity). constructor. constructor. }
   apply (inv_add_snap _ e _ I1); cbn [s_envs s_roster]; [exact U1|].
   intros t Ht. apply U2. apply cleanup_sub. rewrite Ec. exact Ht.
+Qed.
+
+Lemma framed2_weaken e s s' u u' :
+  framed2 e s s' u -> (forall k, In k (ks u') -> In k (ks u)) -> framed2 e s s' u'.
+Proof. intros [A [B C]] H. repeat split; auto. intros k Hk. apply B, H, Hk. Qed.
+
+(* the creation with the claim path of reuseUnlockedTasks around it *)
+Lemma finish_spec e c s s' u :
+  inv s -> finish e c s = (s', u) -> inv s' /\ framed2 e s s' u.
+Proof.
+  intros I. unfold finish.
+  assert (P0 : forall c0, finish0 e c0 s = (s', u) -> inv s' /\ framed2 e s s' u).
+  { intros c0 H. destruct (finish0_spec e c0 s s' u I H) as [I' F]. split; [exact I'|apply framed_framed2, F]. }
+  destruct (assocN e (s_snaps s)) as [snapdets|]; [|apply P0].
+  set (cl := claims c (s_roster s)).
+  destruct (negb (c_reuse c) || negb (N.eqb (c_fail c) 0 || N.eqb (c_fail c) 5) ||
+            existsb (fun d => memN d snapdets) (c_dets c) || match cl with [] => true | _ => false end);
+    [apply P0|].
+  destruct (finish0 e (without_claimed cl c) s) as [s2 u2] eqn:E0.
+  destruct (kill_tasks (map snd cl) (s_roster s2)) as [r3 k3] eqn:Ek. intro H; injection H as <- <-.
+  destruct (finish0_spec e _ s s2 u2 I E0) as [I2 F2].
+  assert (G : good e s2 (with_roster s2 r3) (ks (mkOut 0 k3 [] [] [] 0 []))).
+  { unfold ks, with_roster; cbn [o_kills o_cmds]. rewrite app_nil_r. apply good_mk; [|constructor|].
+    - replace r3 with (fst (kill_tasks (map snd cl) (s_roster s2))) by (rewrite Ek; reflexivity). constructor. constructor.
+    - intros x Hx. eapply kill_touched. rewrite Ek. exact Hx. }
+  split; [eapply good_inv; eauto|].
+  eapply framed2_weaken; [eapply framed2_seq; [apply framed_framed2, F2|apply framed_framed2, good_framed; [exact I2|exact G]]|].
+  intros k Hk. unfold ks in *. cbn [out_seq o_kills o_cmds] in *. rewrite !in_app_iff in *. cbn [In]. tauto.
 Qed.
 
 Definition frame_of (o : op) (s s' : st) (u : out) : Prop :=
@@ -775,7 +799,7 @@ Lemma step_spec s o s' u :
   inv s -> wf_op s o = true -> step s o = (s', u) ->
   inv s' /\ (is_request o = true -> frame_of o s s' u).
 Proof.
-  intros I W. destruct o as [e missing|e c|e c|e ev fail|e force allow keep tfail| |ids|t|fids|];
+  intros I W. destruct o as [e missing|e c|e c|e ev fail|e force allow keep tfail| |ids|t|fids|rids|];
     cbn [step wf_op is_request] in *; unfold frame_of; cbn [op_env].
   - (* OSnap *)
     apply negb_true_iff in W. destruct missing.
@@ -783,8 +807,7 @@ Proof.
       apply framed_framed2, good_framed; [exact I|apply good_refl]. }
     intro H. split; [apply (snap_spec e s s' u I W H)|]. intros _. eapply snap_framed2; eauto.
   - (* OFinish *)
-    intro H. destruct (finish_spec e c s s' u I H) as [I' F]. split; [exact I'|]. intros _.
-    apply framed_framed2, F.
+    intro H. destruct (finish_spec e c s s' u I H) as [I' F]. split; [exact I'|]. intros _. exact F.
   - (* OCreate *)
     apply andb_true_iff in W. destruct W as [W _]. apply negb_true_iff in W.
     destruct (N.eqb (c_fail c) 1).
@@ -795,7 +818,7 @@ Proof.
     destruct (snap_spec e s s1 o1 I W Es) as [I1 _].
     destruct (finish_spec e c s1 s2 o2 I1 Ef) as [I2 F2].
     split; [exact I2|]. intros _.
-    eapply framed2_seq; [eapply snap_framed2; eauto|apply framed_framed2, F2].
+    eapply framed2_seq; [eapply snap_framed2; eauto|exact F2].
   - (* OControl *)
     intro H. apply control_good in H. split; [eapply good_inv; eauto|]. intros _.
     apply framed_framed2, good_framed; auto.
@@ -822,6 +845,8 @@ Proof.
     intro H; injection H as <- <-. split; [apply dies_inv, I|discriminate].
   - (* OFail *)
     intro H; injection H as <- <-. split; [apply fail_inv, I|discriminate].
+  - (* ORefuse *)
+    intro H; injection H as <- <-. split; [apply refuse_inv, I|discriminate].
   - (* ORecon: by the source fact uts_executor_write_guarded the update changes nothing *)
     intro H; injection H as <- <-. rewrite recon_tasks_id. split; [|discriminate].
     destruct s; exact I.
